@@ -23,6 +23,7 @@ META = {
                     "joint axis obtained by differentiating those published positions"],
 }
 REQUIRED_CLASSES = ["theta:within_5e-4_of_a_limit"]
+REQUIRED_REACH = ['kinematics/arm_model.py:Arm.jacobian', 'kinematics/arm_model.py:Arm.jacobianBody', 'kinematics/arm_model.py:Arm.jacobianLink', 'kinematics/arm_model.py:Arm.jacobianEETrans', 'kinematics/arm_model.py:Arm.numericalJacobian', 'kinematics/robot_model.py:Robot.staticForces', 'kinematics/arm_model.py:Arm.staticForcesWithLinkMasses']
 REQUIRED_CLAUSES = ["space", "body", "link", "eetrans", "numerical", "velocity", "statics.power", "statics.inverse", "statics.linkmass", "statics.body", "velocity.joints"]
 
 
